@@ -77,6 +77,12 @@ func hookCases(maxHooks, extraHooks int) []hookCase {
 	if extraHooks > maxHooks {
 		rec(opts[16:], extraHooks, maxHooks+1, 0, nil)
 	}
+	if extraHooks == 0 {
+		// quick tier: a fixed list of two-hook interactions (both stages)
+		for _, pr := range [][2]int{{1, 2}, {1, 4}, {2, 4}, {1, 1}, {2, 2}, {4, 4}, {3, 4}, {6, 1}, {7, 0}, {2, 6}, {4, 6}, {7, 7}} {
+			out = append(out, hookCase{Hooks: []hookSpec{{3, pr[0]}, {3, pr[1]}}})
+		}
+	}
 	return out
 }
 
@@ -311,7 +317,7 @@ func complement(hs []hookSpec) []hookSpec {
 }
 
 func checkHookSelection(t *testing.T, col *evid.Collector, offset int) {
-	maxHooks, extra := 1, 2
+	maxHooks, extra := 1, 0
 	if evid.Thorough() {
 		maxHooks, extra = 2, 3
 	}
